@@ -30,7 +30,7 @@ where
     Ok(l_shared + l_indiv)
 }
 
-fn read_site_length<R>(reader: &mut R) -> io::Result<usize>
+pub(super) fn read_site_length<R>(reader: &mut R) -> io::Result<usize>
 where
     R: Read,
 {
